@@ -6,8 +6,10 @@ import (
 	"bytes"
 	"context"
 	"encoding/binary"
+	"encoding/json"
 	"fmt"
 	"io"
+	"sync"
 	"testing"
 	"time"
 
@@ -91,6 +93,124 @@ func TestVerifC09ClientStdin(t *testing.T) {
 					return
 				}
 			}
+		}
+	}
+	en.Done(true)
+}
+
+// vfSlowWriter takes a while for every Write and records the bytes in the order they were accepted (the client's
+// standard output as a slow pipe): concurrent writers that are not serialised show up as interleaved frames.
+type vfSlowWriter struct {
+	mu    sync.Mutex
+	buf   bytes.Buffer
+	delay time.Duration
+}
+
+func (w *vfSlowWriter) Write(p []byte) (int, error) {
+	time.Sleep(w.delay)
+	w.mu.Lock()
+	defer w.mu.Unlock()
+	return w.buf.Write(p)
+}
+func (w *vfSlowWriter) Close() error { return nil }
+
+// TestVerifC09ClientStdout: what the reference client writes to its standard output when it works on several requests
+// at once (-p 4) is a sequence of intact frames - one per request, each readable on its own - also when the results
+// are errors the client found before issuing any RPC (requests that name no HTTP version / protocol / codec) and the
+// output is slow. docs/testing_clients.md: concurrent writes must not be interleaved.
+func TestVerifC09ClientStdout(t *testing.T) {
+	en := verifkit.NewEnum(t, "C09ClientStdout")
+	type row struct {
+		JSON     bool `json:"json"`
+		Parallel int  `json:"parallel"`
+		N        int  `json:"n"`
+	}
+	var rows []row
+	for _, js := range []bool{false, true} {
+		for _, p := range []int{4, 1} {
+			rows = append(rows, row{js, p, 6})
+		}
+	}
+	var replay row
+	if en.ReplayCase(&replay) {
+		rows = []row{replay}
+	}
+	for _, r := range rows {
+		viol := func() error {
+			var input bytes.Buffer
+			want := map[string]bool{}
+			for i := 0; i < r.N; i++ {
+				// (nothing but a name: the client cannot even pick a transport and answers with an error result)
+				msg := &conformancev1.ClientCompatRequest{TestName: fmt.Sprintf("verif/c09/stdout-%d", i)}
+				want[msg.TestName] = true
+				if r.JSON {
+					js, _ := protojson.Marshal(msg)
+					input.Write(js)
+					input.WriteByte('\n')
+				} else {
+					data, _ := proto.Marshal(msg)
+					var l [4]byte
+					binary.BigEndian.PutUint32(l[:], uint32(len(data)))
+					input.Write(l[:])
+					input.Write(data)
+				}
+			}
+			args := []string{"reference-client", "-p", fmt.Sprint(r.Parallel)}
+			if r.JSON {
+				args = append(args, "--json")
+			}
+			out := &vfSlowWriter{delay: 15 * time.Millisecond}
+			ctx, cancel := context.WithTimeout(context.Background(), time.Minute)
+			defer cancel()
+			done := make(chan error, 1)
+			go func() { done <- Run(ctx, args, io.NopCloser(bytes.NewReader(input.Bytes())), out, vfNopWC{io.Discard}) }()
+			select {
+			case <-done:
+			case <-time.After(90 * time.Second):
+				return nil // no verdict
+			}
+			out.mu.Lock()
+			data := append([]byte{}, out.buf.Bytes()...)
+			out.mu.Unlock()
+			got := map[string]int{}
+			if r.JSON {
+				dec := json.NewDecoder(bytes.NewReader(data))
+				for dec.More() {
+					var raw json.RawMessage
+					if err := dec.Decode(&raw); err != nil {
+						return verifkit.Violf("client-stdout-garbled", "the client's JSON output cannot be read back after %d message(s): %v (%d requests, -p %d)\n%.300q", len(got), err, r.N, r.Parallel, data)
+					}
+					resp := &conformancev1.ClientCompatResponse{}
+					if err := protojson.Unmarshal(raw, resp); err != nil {
+						return verifkit.Violf("client-stdout-garbled", "message %d of the client's JSON output is not a response: %v", len(got)+1, err)
+					}
+					got[resp.TestName]++
+				}
+			} else {
+				rest := data
+				for len(rest) > 0 {
+					if len(rest) < 4 || int(binary.BigEndian.Uint32(rest)) > len(rest)-4 {
+						return verifkit.Violf("client-stdout-garbled", "the client's output cannot be read back after %d message(s): a frame of %d bytes is announced, %d bytes follow (%d requests, -p %d)", len(got), binary.BigEndian.Uint32(rest), len(rest)-4, r.N, r.Parallel)
+					}
+					n := int(binary.BigEndian.Uint32(rest))
+					resp := &conformancev1.ClientCompatResponse{}
+					if err := proto.Unmarshal(rest[4:4+n], resp); err != nil || !want[resp.TestName] {
+						return verifkit.Violf("client-stdout-garbled", "message %d written by the client cannot be read back as a response to one of the requests: err=%v name=%q (%d requests, -p %d)", len(got)+1, err, resp.TestName, r.N, r.Parallel)
+					}
+					got[resp.TestName]++
+					rest = rest[4+n:]
+				}
+			}
+			for name := range want {
+				if got[name] != 1 {
+					return verifkit.Violf("client-stdout-count", "request %q has %d responses in the client's output, want exactly one (%v)", name, got[name], got)
+				}
+			}
+			return nil
+		}()
+		en.Rec.Observe(r, []string{fmt.Sprintf("json:%v", r.JSON), fmt.Sprintf("parallel:%d", r.Parallel)}, r.Parallel > 1)
+		if viol != nil && en.Fail(r, viol) {
+			break
 		}
 	}
 	en.Done(true)
